@@ -114,11 +114,16 @@ ScopeItem(pr, d) ==
 
 Judge(p) ==
   LET pr == p.prog
-      T  == Toks(pr)
+      \* the name tokens of the text, each with its index k in p.toks (its observation)
+      TokOf(k) == LET o == p.toks[k] IN
+                  IF o.s = 0 THEN [i |-> o.i, s |-> 0, nm |-> pr[o.i].nm, id |-> pr[o.i].id, role |-> MainRole(pr[o.i]), k |-> k]
+                  ELSE [i |-> o.i, s |-> o.s, nm |-> pr[o.i].sub[o.s].nm, id |-> pr[o.i].sub[o.s].id, role |-> SubRole(pr[o.i].sub[o.s]), k |-> k]
+      T  == {TokOf(k) : k \in DOMAIN p.toks}
+      Complete == Cardinality(T) = Cardinality(Toks(pr)) /\ \A t \in T : t.role # ""
       Kind(t) == IF p.mut /\ TokKind(pr, t) = "lambda-param" THEN "mutable-lambda-param" ELSE TokKind(pr, t)
       \* the declaration d is written in a scope that has ended before token t
       Ended(d, t) == d.role = "decl" /\ ScopeItem(pr, d) # 0 /\ t.i > CloseOf(pr, ScopeItem(pr, d))
-      O(t) == p.toks[CHOOSE k \in DOMAIN p.toks : p.toks[k].i = t.i /\ p.toks[k].s = t.s]
+      O(t) == p.toks[t.k]
       Pos(t) == <<O(t).line, O(t).col>>
       At(pos) == {t \in T : Pos(t) = pos}                       \* the token of the text at a position (at most one)
       SpecDecl(t) == CHOOSE d \in T : d.role \in {"decl", "fdecl"} /\ d.id = t.id
@@ -148,9 +153,10 @@ Judge(p) ==
 
       (* (1) SameIdentity: same varId, different declarations *)
       Meaning(t) == IF RefMode THEN Expected(t) ELSE {t.id}
-      Shared == {pair \in T \X T : /\ VarTok(pair[1]) /\ VarTok(pair[2]) /\ Judgeable(pair[1]) /\ Judgeable(pair[2])
-                                   /\ Meaning(pair[1]) # Meaning(pair[2])
-                                   /\ VarIds(pair[1]) \cap VarIds(pair[2]) # {}}
+      VT == {t \in T : VarTok(t) /\ Judgeable(t)}
+      WithId(v) == {t \in VT : v \in VarIds(t)}
+      Conflicting == {v \in UNION {VarIds(t) : t \in VT} : Cardinality({Meaning(t) : t \in WithId(v)}) > 1}
+      Shared == UNION {{pair \in WithId(v) \X WithId(v) : Meaning(pair[1]) # Meaning(pair[2])} : v \in Conflicting}
 
       (* A declaration that cppcheck does not keep apart: its own token is linked to another variable, or it has the  *)
       (* varId of another declaration.  Every deviation that involves such a declaration (as the token, *)
@@ -199,7 +205,9 @@ Judge(p) ==
       Where(t, pos) == IF At(pos) = {} THEN "other" ELSE IF ItemAt(pos) > t.i THEN "declared-later"
                        ELSE IF OpenAt(pr, ItemAt(pos)) = OpenAt(pr, ItemAt(Exp(t))) THEN "same-scope" ELSE "other-scope"
       FunItem(t) == [kind |-> "wrong-function",
-                     key  |-> "wrong-function:" \o pr[t.i].op \o TypeList(pr[t.i].sub) \o ":expected=" \o SigAt(Exp(t)) \o ":got=" \o SigAt(GotFun(t)) \o "-" \o Where(t, GotFun(t)),
+                     \* a function that is declared only after the call is not a candidate at all: one class whatever the types
+                     key  |-> IF Where(t, GotFun(t)) = "declared-later" THEN "wrong-function:declared-after-the-call"
+                              ELSE "wrong-function:" \o pr[t.i].op \o TypeList(pr[t.i].sub) \o ":expected=" \o SigAt(Exp(t)) \o ":got=" \o SigAt(GotFun(t)) \o "-" \o Where(t, GotFun(t)),
                      what |-> "call of " \o t.nm \o " at " \o PosStr(Pos(t)) \o " is linked to the function declared at " \o PosStr(GotFun(t))
                               \o ", overload resolution selects the declaration at " \o PosStr(Exp(t))]
 
@@ -209,7 +217,9 @@ Judge(p) ==
                              key  |-> "model:" \o Describe(pr, t),
                              what |-> "token " \o t.nm \o " at " \o PosStr(Pos(t)) \o ": the specification binds it to "
                                       \o (IF HasSpecDecl(t) THEN PosStr(Pos(SpecDecl(t))) ELSE "nothing") \o ", clang to " \o ToString(CL(t))] : t \in Disagree})
-  IN  IF ~RefMode /\ Disagree # {} THEN [name |-> p.name, verdict |-> "model", items |-> disItems, unconfirmed |-> Len(items)]
+  IN  IF ~Complete THEN [name |-> p.name, verdict |-> "model", unconfirmed |-> 0,
+                             items |-> <<[kind |-> "model", key |-> "model:token-table", what |-> "the token table does not cover the name tokens of the program"]>>]
+      ELSE IF ~RefMode /\ Disagree # {} THEN [name |-> p.name, verdict |-> "model", items |-> disItems, unconfirmed |-> Len(items)]
       ELSE IF items # <<>> THEN [name |-> p.name, verdict |-> "violation", items |-> items, unconfirmed |-> 0]
       ELSE [name |-> p.name, verdict |-> "ok", items |-> <<>>, unconfirmed |-> 0]
 
